@@ -16,7 +16,8 @@ WRITES = {"wmG", "wmT", "we", "ws", "wx", "wf"}
 SBOM_FORMATS = ["cdx", "spdx", "syft"]
 ENV_POOL = [("all", "append", b"PATH", b"/x"), ("all", "delim", b"PATH", b":"), ("build", "override", b"CC", b"gcc"), ("launch", "default", b"PORT", b"8080"),
             ("process:web", "override", b"ROLE", b"web"), ("process:worker", "prepend", b"ROLE", b"w"), ("launch", "prepend", b"LD_LIBRARY_PATH", b"/l"),
-            ("all", "override", b"EMPTY", b""), ("build", "override", b"RAW", b"\xff\xfe\x00\x80"), ("process:web", "append", b"RAWP", b"caf\xe9")]
+            ("all", "override", b"EMPTY", b""), ("build", "override", b"RAW", b"\xff\xfe\x00\x80"), ("process:web", "append", b"RAWP", b"caf\xe9"),
+            ("process:web.1", "override", b"INSTANCE", b"1"), ("process:web.2", "override", b"INSTANCE", b"2")]
 MD_GENERIC = [{"v": "1"}, {}, {"name": "x", "n": 3, "flag": True, "nested": {"k": ["a", "b"]}}, {"version": 7}, {"Version": "caps"},
               # parses as the typed metadata (extra keys are allowed there) - a kept layer must still keep every value
               {"version": "1.0", "extra": "keep-me", "nested": {"k": [1, 2]}, "build_id": 42}]
@@ -218,8 +219,10 @@ def judge_request(step, rep, pre, post, names, sh, case):
             sh.violation("state:%s->%s" % (outcome[0], got[0]), "%s with pre-state %r reported %r, the callbacks decided %r" % (what, abstract_state(v0), got, outcome), case)
             return None
     else:
-        if got[0] != "empty" or (outcome[1] == "newly") != (got[1] == "newly"):
-            sh.violation("state:uncached", "%s with pre-state %r reported %r" % (what, abstract_state(v0), got), case)
+        # uncached_layer validates with its own fixed callbacks: an existing layer is always "restored, then deleted"
+        want_u = ("empty", "newly") if outcome[1] == "newly" else ("empty", {"restored": None})
+        if got != want_u:
+            sh.violation("state:uncached", "%s with pre-state %r reported %r, expected %r" % (what, abstract_state(v0), got, want_u), case)
             return None
     # on-disk post-conditions
     if not v1["dir_present"]:
@@ -468,7 +471,15 @@ def shard_run(arg):
             else:
                 steps = random_history(r, item)
                 names = NAMES
-            run_history(mon, base, "%s%d" % (kind[0], idx), steps, names, sh)
+            try:
+                run_history(mon, base, "%s%d" % (kind[0], idx), steps, names, sh)
+            except vp.ExecutorDied as e:
+                # the process running the library call died (abort / stack overflow / panic inside the call): that is behaviour of
+                # the code under test, witnessed by the history that led to it
+                sh.violation("process-died:%s" % e.req.get("op"), "the process died (status %s) inside %s after the history %r" % (e.status, e.req.get("op"), [s.get("op") for s in steps]),
+                             {"steps": jsonable(steps), "names": names, "died_on": e.req})
+                mon.close()
+                mon = vp.Mon("layers")
             sh.count("histories")
     finally:
         mon.close()
@@ -494,7 +505,7 @@ def run(tier, seed, work):
                 "(abstract pre-state of the layer [dir/toml-only, types present or stripped by restore, metadata kind, has env/SBOM/exec.d/files], operation, metadata type, outcome, cause kind) "
                 "transitions taken on a layer that existed before the request")
     res.assumptions = ["restore between builds is simulated from the files actually on disk: cache=true keeps dir+SBOMs+toml without [types]; launch-only keeps the toml; others vanish",
-                       "for uncached_layer only 'Empty' (and NewlyCreated iff the layer was absent) is required of the reported cause",
+                       "for uncached_layer the expected cause is NewlyCreated for an absent layer and RestoredLayerAction for an existing one (its fixed internal callbacks)",
                        "writes go through the most recent LayerRef of a layer, obtained in the current build"]
     return res
 
